@@ -9,21 +9,21 @@ FULL = [f for f in S.ALL_FEATURES if f not in ("exact", "deadlock")]
 # (established by dropping each exclusion in turn, VERIF_DROP_EXCLUSIONS, and looking at which clauses fail).
 EXCL = {
     "C01": (),
-    "C02": ("sched_reroute_blocked", "sched_preempt_blocked_cc"),
-    "C03": ("sched_reroute_blocked", "sched_preempt_blocked_cc"),
-    "C04": ("sched_reroute_blocked", "sched_preempt_blocked_cc"),
-    "C05": ("sched_reroute_blocked", "sched_preempt_blocked_cc"),
+    "C02": (),
+    "C03": (),
+    "C04": (),
+    "C05": (),
     "C06": ("jockey_capacity",),
     "C08": (),
-    "C09": ("sched_reroute_blocked", "sched_preempt_blocked_cc"),
+    "C09": (),
     "C10": (),
-    "C14": ("sched_reroute_blocked", "sched_preempt_blocked_cc"),
-    "C15": ("sched_reroute_blocked", "sched_preempt_blocked_cc"),
-    "C16": ("sched_reroute_blocked", "sched_preempt_blocked_cc"),
-    "C17": ("sched_reroute_blocked", "sched_preempt_blocked_cc", "matrix_sched_preempt_blocked"),
-    "C20": ("sched_reroute_blocked", "sched_preempt_blocked_cc"),
+    "C14": (),
+    "C15": (),
+    "C16": (),
+    "C17": ("matrix_sched_preempt_blocked",),
+    "C20": (),
 }
-KNOWN_EXCLUSIONS = ("sched_reroute_blocked", "sched_preempt_blocked_cc", "jockey_capacity")
+KNOWN_EXCLUSIONS = ("jockey_capacity",)
 
 
 def full_profile(pid=None, **kw):
